@@ -82,6 +82,32 @@ def wrapper_rule(chk):
                     ok = f"data.device == {other}.device" in asserts or f"{other}.device == data.device" in asserts
                     chk.require("C06.R3", site, ok, f"{fn}: asserts data.device == {other}.device", fn, f"device assert {other}", f"payload and {other} on different devices: the wrapper reports one device while holding two")
     chk.floor("C06.R3", n, 5, "wrapper subclasses with __new__")
+    # constructor fields: what the wrapper reports (qtype, axis, group size) and holds (scale, zero-point) is what the constructor was given
+    from ..core import paths_of
+    n_f = 0
+    for cname in ("QTensor", "QBytesTensor", "QBitsTensor"):
+        if not repo.has_cls(cname):
+            continue
+        ci = repo.cls(cname)
+        init = ci.own("__init__")
+        if init is None:
+            continue
+        params = positional_params(init)[1:]
+        fn = f"{cname}.__init__"
+        for p in paths_of(init, inline_helpers=False):
+            if p.end[0] == "raise":
+                continue
+            site = f"{ci.mod.rel}:{init.lineno}"
+            for ef in p.effects:
+                if ef[0] == "store" and U(ef[1]) == "self" and ef[2].startswith("_") and ef[2][1:] in params and ef[2] != "_data":
+                    n_f += 1
+                    chk.require("C06.R3", f"{ci.mod.rel}:{ef[4]}", U(ef[3]) == ef[2][1:], f"{fn}: self.{ef[2]} = `{U(ef[3])[:50]}` (the constructor argument, unchanged)", fn, f"field {ef[2]} stored as given",
+                                f"a tensor built with a {ef[2][1:]} that the constructor rewrites: the wrapper reports another {ef[2][1:]} than the one its inner tensors were laid out for (e.g. an axis of size 1 turned into None while scale and payload stay grouped)")
+                if ef[0] == "expr" and isinstance(ef[1], ast.Call) and U(ef[1].func) == "super().__init__":
+                    n_f += 1
+                    chk.require("C06.R3", f"{ci.mod.rel}:{ef[2]}", [U(a) for a in ef[1].args] == ["qtype", "axis"] and not ef[1].keywords, f"{fn}: base constructor receives (qtype, axis) unchanged (`{U(ef[1])[:60]}`)", fn, "base constructor arguments",
+                                "any tensor: qtype / axis swapped or rewritten on the way to the base class")
+    chk.floor("C06.R3", n_f, 6, "constructor field stores")
 
 
 def _norm_src(t: str) -> str:
